@@ -4,9 +4,13 @@ import (
 	"flag"
 	"fmt"
 	"os"
+	"os/exec"
+	"os/signal"
 	"strconv"
+	"syscall"
 
 	"kverif/internal/checks"
+	"kverif/internal/load"
 )
 
 func usage() {
@@ -15,6 +19,14 @@ func usage() {
 }
 
 func main() {
+	sigs := make(chan os.Signal, 1)
+	signal.Notify(sigs, syscall.SIGINT, syscall.SIGTERM)
+	go func() {
+		<-sigs
+		load.CleanupAll()
+		_ = exec.Command("pkill", "-P", fmt.Sprint(os.Getpid())).Run()
+		os.Exit(130)
+	}()
 	if len(os.Args) < 2 {
 		usage()
 	}
@@ -53,7 +65,9 @@ func main() {
 			}()
 			err = fn(c)
 		}()
-		os.Exit(c.Finish(err))
+		code := c.Finish(err)
+		load.CleanupAll()
+		os.Exit(code)
 	case "replay":
 		if len(os.Args) < 3 {
 			usage()
